@@ -297,7 +297,11 @@ pub fn run(r: &mut Report, _replay: Option<&str>) {
         }
         let cfg = gen::WorldCfg { max_pkgs: if i % 4 == 0 { 8 } else { 5 }, max_customs: if i % 3 == 0 { 3 } else { 2 }, violations: if i % 6 == 0 { 2 } else { 0 }, unknown_criteria: false };
         let w = gen::gen_world(&mut crng, &cfg);
+        let nf = r.failures.len();
+        let rng0 = Rng(crng.0);
         check_world(r, &mut d, &mut crng, &w, &format!("random#{i}"));
+        // (the same random modes are drawn for every candidate)
+        r.minimise_last(nf, &w, &mut |sr, cand| check_world(sr, &mut d, &mut Rng(rng0.0), cand, "minimising"));
     }
     r.count_n("driver-requests", d.requests);
 }
